@@ -17,7 +17,7 @@ RULE = ("reader: the full matrix dtype(10) x byte order(<,>,| for 1-byte types) 
         "astype(float64); Fortran-ordered and unsupported-dtype files (complex, bool, f2, unicode, timedelta) must be "
         "rejected by both. writer: for a shape of EVERY header length modulo 64 (1-27 axes) numpy.load must accept the "
         "file written by write_npy and return the same shape and bit-identical values; the model's structural theorem covers "
-        "all shapes. non-trivial = file with a non-f8 dtype or a non-default header spelling")
+        "all shapes. non-trivial = file with a non-f8 dtype or a non-default header spelling; headers aligned to 16 bytes (numpy <= 1.13) and not padded at all; data whose first bytes are spaces / line feeds")
 
 
 def check(rep, tier, seed):
